@@ -389,7 +389,7 @@ class Step(Contract):
         return [("obj", q), ("obj", m), ("obj", l), ("field", b, "_last_accrual"), ("obj", tr), ("obj", f["_queue_actions"]),
                 ("field", c.self, "_done"), ("field", c.self, "_now"), ("field", c.self, "_last_event"),
                 ("field", c.self, "_events_latent"), ("field", c.self, "_events_nonlatent"),
-                ("col", books, "bid_price"), ("col", books, "ask_price")]
+                ("col", books, "bid_price"), ("col", books, "ask_price"), ("global", "AbstractContract.now")]
 
     def ensures(self, c):
         I = c.I
@@ -405,7 +405,14 @@ class Step(Contract):
             < idx("Broker.rebalance") < idx("TradingEnv._process_nonlatent_events")
         res = c.result
         done1 = tobool(f1["_done"])
+        tr = I.trace
+        first_use = next((i for i, t in enumerate(tr) if t == ("call", "PortfolioSpace.make_rebalancing_request")), None)
+        first_write = next((i for i, t in enumerate(tr) if t == ("global_write", "AbstractContract.now") or
+                            t == ("call", "TradingEnv._process_latent_events") and False), None)
+        clock_ok = first_use is not None and first_write is not None and first_write < first_use
         out = [
+            # C10: the process-wide contract clock is (re)written by this environment before anything that may resolve a chain
+            Cl("global_clock_defined_before_use", z3.BoolVal(bool(clock_ok))),
             Cl("refused_only_when_done", z3.Not(tobool(f0["_done"]))),
             Cl("effect_order", z3.BoolVal(bool(order_ok))),
             Cl("delay_line_shape", z3.And(q1["len"] == d, q1["maxlen"] == d + 1)),
